@@ -544,7 +544,7 @@ class CircuitTemplate(AbstractBaseTemplate):
 
         # store current state of the network
         for key in net.compute_graph.state_vars:
-            self._state_var_values[key] = net.compute_graph.get_var(key).value
+            net._state_var_values[key] = net.compute_graph.get_var(key).value
 
         # clean up
         if clear:
@@ -627,12 +627,12 @@ class CircuitTemplate(AbstractBaseTemplate):
         # generate the run function
         func, args, arg_names, state_var_indices = net._ir.get_run_func(func_name=func_name, step_size=step_size,
                                                                         **kwargs)
-        self._state_var_indices = state_var_indices
+        net._state_var_indices = state_var_indices
 
         # set current network state if it was empty before
-        if not self.state:
+        if not net.state:
             for key in net.compute_graph.state_vars:
-                self._state_var_values[key] = net.compute_graph.get_var(key).value
+                net._state_var_values[key] = net.compute_graph.get_var(key).value
 
         # map the backend variable names to the frontend variable names (must happen before clear)
         state_var_map = {}
@@ -720,12 +720,12 @@ class CircuitTemplate(AbstractBaseTemplate):
         func, args, arg_names, state_var_indices = net._ir.get_jacobian_func(func_name=func_name,
                                                                                step_size=step_size,
                                                                                sparse=sparse, **kwargs)
-        self._state_var_indices = state_var_indices
+        net._state_var_indices = state_var_indices
 
         # set current network state if it was empty before
-        if not self.state:
+        if not net.state:
             for key in net.compute_graph.state_vars:
-                self._state_var_values[key] = net.compute_graph.get_var(key).value
+                net._state_var_values[key] = net.compute_graph.get_var(key).value
 
         # map the backend variable names to the frontend variable names (must happen before clear)
         state_var_map = {}
